@@ -16,6 +16,8 @@ not answers"):
 * `crates/grafeo-engine/src/query/planner.rs`     `plan_filter`: zone-map check → index path →
   range path → generic filter, for one comparison of a node property with a literal.
 
+Pinned to /repo at cc52572 (after the repairs 4373a2f, c174383, dc17651, ae73952, 6ff036d, 65e98ae).
+
 Values: Null, Bool, Int64, Float64 (bit pattern, see `Model/F64.lean`), String (UTF-8 bytes).
 Hash-map iteration order (only observable through `rebuild_zone_map` on a column that holds
 mutually incomparable values) is an explicit argument of the `rebuild` operation.
@@ -114,13 +116,19 @@ def ZM.mightRange (z : ZM) (lo hi : Option V) (loIncl hiIncl : Bool) : Bool :=
 
 /-! ### `PropertyColumn` -/
 
-/-- new minimum and "this value does not compare with the minimum" -/
+/-- `std::mem::discriminant` of a `Value` -/
+def discr : V → Nat
+  | .null => 0 | .bool _ => 1 | .int _ => 2 | .float _ => 3 | .str _ => 4
+
+/-- new minimum and "this value is not bounded by min/max": it does not compare with the
+minimum, or it is of another variant (an integer next to a float: the lossy `as f64` comparison
+is not transitive above 2^53) -/
 def newMin (v : V) : Option V → Option V × Bool
   | none => (some v, false)
   | some cur =>
     match cmp v cur with
-    | some .lt => (some v, false)
-    | some _ => (some cur, false)
+    | some .lt => (some v, discr v != discr cur)
+    | some _ => (some cur, discr v != discr cur)
     | none => (some cur, true)
 
 def newMax (v : V) : Option V → Option V
@@ -181,21 +189,72 @@ def Col.rebuild (c : Col) (ord : List Nat) : Col :=
     dirty := false
     mixed := ((orderedVals c.vals ord).foldl zmAdd ({}, false)).2 }
 
+/-! #### `v - f64::EPSILON`, `v + f64::EPSILON` (IEEE round-to-nearest-even), on bit patterns -/
+
+def isFinite (b : Nat) : Bool := expField b != 2047
+
+/-- a finite double as an integer multiple of 2^-1074 (sign dropped) -/
+def scaledMag (b : Nat) : Nat :=
+  if expField b = 0 then fracField b else (2 ^ 52 + fracField b) * 2 ^ (expField b - 1)
+
+def scaled (b : Nat) : Int := if signBit b = 1 then -(scaledMag b : Int) else (scaledMag b : Int)
+
+/-- the mantissa (53 bits, or 2^53 after a carry) of the double nearest to `m`, where `l` is the
+bit length of `m` and `l > 53`: ties to even -/
+def roundQ (m l : Nat) : Nat :=
+  let sh := l - 53
+  let q := m / 2 ^ sh
+  let r := m % 2 ^ sh
+  let half := 2 ^ (sh - 1)
+  if r > half || (r == half && q % 2 == 1) then q + 1 else q
+
+/-- magnitude bits of the double nearest to `m · 2^-1074` (a carry out of the largest binade
+lands on the pattern of infinity) -/
+def roundMag (m : Nat) : Nat :=
+  if m < 2 ^ 53 then m     -- subnormals and the first normal binade: exact, bits = m
+  else (bitLen m - 52) * 2 ^ 52 + (roundQ m (bitLen m) - 2 ^ 52)
+
+/-- bits of the double nearest to `s · 2^-1074` (`x − x` is `+0.0`) -/
+def roundSigned (s : Int) : Nat :=
+  if s ≥ 0 then roundMag s.toNat else 2 ^ 63 + roundMag (-s).toNat
+
+/-- `v + d·f64::EPSILON` for `d = ±1`; infinities stay, NaN is handled by the caller -/
+def addEps (b : Nat) (d : Int) : Nat :=
+  if isFinite b then roundSigned (scaled b + d * 2 ^ 1022) else b
+
+def numBits : V → Option Nat
+  | .int i => some (i64ToF64 i)
+  | .float b => some b
+  | _ => none
+
 def neVerdict (v : V) : Option V → Option V → Bool
   | some mn, some mx => !(cmp mn v == some .eq && cmp mx v == some .eq)
   | _, _ => true
 
-def matchOn (z : ZM) (mixed : Bool) (v : V) : Op → Bool
-  | .eq => z.mightEqual v
-  | .ne => if mixed then true else neVerdict v z.min z.max
+/-- `Eq`: a numeric literal is looked for with the filter's tolerance, as the interval
+`[v − ε, v + ε]`; a NaN literal is never pruned -/
+def eqVerdict (z : ZM) (v : V) : Bool :=
+  match numBits v with
+  | some b =>
+    if isNaN b then true
+    else z.mightRange (some (.float (addEps b (-1)))) (some (.float (addEps b 1))) true true
+  | none => z.mightEqual v
+
+def matchOn (z : ZM) (v : V) : Op → Bool
+  | .eq => eqVerdict z v
+  | .ne => if z.nullCount > 0 then true else neVerdict v z.min z.max
   | .lt => z.mightLess v false
   | .le => z.mightLess v true
   | .gt => z.mightGreater v false
   | .ge => z.mightGreater v true
 
-/-- `PropertyColumn::might_match` -/
+/-- `PropertyColumn::might_match`: a stale (`dirty`) or `mixed` column is never pruned -/
 def Col.mightMatch (c : Col) (op : Op) (v : V) : Bool :=
-  if c.dirty then true else matchOn c.zm c.mixed v op
+  if c.dirty || c.mixed then true else matchOn c.zm v op
+
+/-- `PropertyColumn::might_match_range` -/
+def Col.mightRange (c : Col) (lo hi : Option V) (loIncl hiIncl : Bool) : Bool :=
+  if c.dirty || c.mixed then true else c.zm.mightRange lo hi loIncl hiIncl
 
 /-! ### `PropertyStorage` (key ↦ column) -/
 
@@ -234,10 +293,10 @@ def Storage.mightMatch (st : Storage) (key : Nat) (op : Op) (v : V) : Bool :=
   | some c => c.mightMatch op v
   | none => true
 
-/-- `might_match_range`: consults the zone map directly — the `dirty` flag is not looked at -/
+/-- `might_match_range` -/
 def Storage.mightRange (st : Storage) (key : Nat) (lo hi : Option V) (loIncl hiIncl : Bool) : Bool :=
   match aget st key with
-  | some c => c.zm.mightRange lo hi loIncl hiIncl
+  | some c => c.mightRange lo hi loIncl hiIncl
   | none => true
 
 def Storage.zone (st : Storage) (key : Nat) : Option ZM := (aget st key).map (·.zm)
@@ -258,12 +317,15 @@ def valEq : V → V → Bool
 structural identity. The key equality of a property index. -/
 def hvEq (a b : V) : Bool := decide (a = b)
 
-/-- `compare_values_for_range` of `store.rs`: like `cmp` but without Int/Float -/
+/-- `compare_values_for_range` of `store.rs`: the same cases as `cmp` (Int/Float through
+`as f64` since dc17651; booleans are ordered here, unlike in the filter) -/
 def cmpR : V → V → Option Ordering
   | .int a, .int b => some (compare a b)
   | .float a, .float b => partialCmp a b
   | .str a, .str b => some (cmpBytes a b)
   | .bool a, .bool b => some (compare a.toNat b.toNat)
+  | .int a, .float b => partialCmp (i64ToF64 a) b
+  | .float a, .int b => partialCmp a (i64ToF64 b)
   | _, _ => none
 
 def lowerIn (incl : Bool) : Option Ordering → Bool
@@ -290,14 +352,6 @@ def valueInRange (x : V) (lo hi : Option V) (loIncl hiIncl : Bool) : Bool :=
 
 /-! #### the engine's filter semantics (`filter.rs`) -/
 
-def isFinite (b : Nat) : Bool := expField b != 2047
-
-/-- a finite double as an integer multiple of 2^-1074 (sign dropped) -/
-def scaledMag (b : Nat) : Nat :=
-  if expField b = 0 then fracField b else (2 ^ 52 + fracField b) * 2 ^ (expField b - 1)
-
-def scaled (b : Nat) : Int := if signBit b = 1 then -(scaledMag b : Int) else (scaledMag b : Int)
-
 /-- `(a - b).abs() < f64::EPSILON` with IEEE round-to-nearest-even subtraction: an infinite or
 NaN operand gives ±inf or NaN (not `<`); for finite operands the rounded difference is below
 2^-52 exactly when the exact difference is below the midpoint 2^-52 − 2^-106 between 2^-52 and
@@ -310,25 +364,20 @@ def fEq : V → V → Bool
   | .null, .null => true
   | .bool a, .bool b => a == b
   | .int a, .int b => a == b
-  | .float a, .float b => epsClose a b
+  | .float a, .float b => feq a b || epsClose a b     -- `a == b ||`: inf − inf is NaN
   | .str a, .str b => a == b
   | .int a, .float b => epsClose (i64ToF64 a) b
   | .float b, .int a => epsClose (i64ToF64 a) b
   | _, _ => false
 
-/-- `if a < b {-1} else if a > b {1} else {0}` on floats: NaN lands on 0 -/
-def fltCmp3 (a b : Nat) : Ordering :=
-  match partialCmp a b with
-  | some o => o
-  | none => .eq
-
-/-- `compare_values` of `filter.rs` (no Bool/Bool) -/
+/-- `compare_values` of `filter.rs`: `partial_cmp` (NaN unordered), Int/Float through `as f64`,
+no Bool/Bool -/
 def fCmp : V → V → Option Ordering
   | .int a, .int b => some (compare a b)
-  | .float a, .float b => some (fltCmp3 a b)
+  | .float a, .float b => partialCmp a b
   | .str a, .str b => some (cmpBytes a b)
-  | .int a, .float b => some (fltCmp3 (i64ToF64 a) b)
-  | .float a, .int b => some (fltCmp3 a (i64ToF64 b))
+  | .int a, .float b => partialCmp (i64ToF64 a) b
+  | .float a, .int b => partialCmp a (i64ToF64 b)
   | _, _ => none
 
 /-- does a stored value `x` satisfy `x <op> v` in a generic filter (`eval_binary_op`; a `None`
@@ -502,30 +551,63 @@ def Op.isRange : Op → Bool
 def Store.genericPath (s : Store) (key : Nat) (op : Op) (lit : V) : List Nat :=
   s.live.filter (fun n => holds (s.props.get n key) (fun x => fsat op x lit))
 
-/-- the index path (`try_plan_filter_with_property_index`): candidates from
-`find_nodes_by_properties`, then the whole predicate again on top (`get_node` of a node that is
-not live yields no property, so such a candidate is rejected) -/
+/-- `f as i64` when `f.fract() == 0.0`, for a finite `f` (value = (2^52+frac)·2^(exp−1075));
+only used for 2 ≤ |f| < 2^53 -/
+def floatToInt (b : Nat) : Option Int :=
+  let m := 2 ^ 52 + fracField b
+  let e := expField b
+  let mag : Option Nat :=
+    if e ≥ 1075 then some (m * 2 ^ (e - 1075))
+    else if m % 2 ^ (1075 - e) = 0 then some (m / 2 ^ (1075 - e)) else none
+  mag.map (fun n => if signBit b = 1 then -(n : Int) else (n : Int))
+
+/-- `lookup_keys_for_equality`: the stored values an equality with the literal accepts, as index
+keys — or `none` when no small set of keys covers them (numbers below magnitude 2, where the
+tolerance reaches neighbouring floats; floats from 2^53 on; NaN, infinities, null) -/
+def lookupKeys : V → Option (List V)
+  | .str s => some [.str s]
+  | .bool b => some [.bool b]
+  | .int n => if n.natAbs ≥ 2 then some [.int n, .float (i64ToF64 n)] else none
+  | .float f =>
+    -- `f.abs() >= 2.0 && f.abs() < 2^53` on the magnitude bits (NaN and inf are above)
+    if mag f ≥ 0x4000000000000000 ∧ mag f < 0x4340000000000000 then
+      some (match floatToInt f with
+        | some i => [.float f, .int i]
+        | none => [.float f])
+    else none
+  | .null => none
+
+/-- the index path (`try_plan_filter_with_property_index`, one equality condition): the union of
+`find_nodes_by_property` over the lookup keys, then the whole predicate again on top
+(`get_node` of a node that is not live yields no property, so such a candidate is rejected) -/
 def Store.indexPath (s : Store) (key : Nat) (lit : V) : List Nat :=
-  (s.findProps [(key, lit)]).filter
+  (((lookupKeys lit).getD []).flatMap (fun k => s.find key k)).filter
     (fun n => s.live.contains n && holds (s.props.get n key) (fun x => fsat .eq x lit))
 
-/-- the range path (`try_plan_filter_with_range_index` → `find_nodes_in_range`) -/
-def Store.rangePath (s : Store) (key : Nat) (op : Op) (lit : V) : List Nat :=
+/-- the bounds the planner hands to `find_nodes_in_range` for `n.key <op> lit` -/
+def rangeArgs (op : Op) (lit : V) : Option V × Option V × Bool × Bool :=
   match op with
-  | .lt => s.findRange key none (some lit) false false
-  | .le => s.findRange key none (some lit) false true
-  | .gt => s.findRange key (some lit) none false false
-  | .ge => s.findRange key (some lit) none true false
-  | _ => []
+  | .lt => (none, some lit, false, false)
+  | .le => (none, some lit, false, true)
+  | .gt => (some lit, none, false, false)
+  | .ge => (some lit, none, true, false)
+  | _ => (none, none, false, false)
+
+/-- the range path (`try_plan_filter_with_range_index` → `find_nodes_in_range`), the whole
+predicate re-applied to its candidates (6ff036d) -/
+def Store.rangePath (s : Store) (key : Nat) (op : Op) (lit : V) : List Nat :=
+  (s.findRange key (rangeArgs op lit).1 (rangeArgs op lit).2.1 (rangeArgs op lit).2.2.1
+      (rangeArgs op lit).2.2.2).filter
+    (fun n => s.live.contains n && holds (s.props.get n key) (fun x => fsat op x lit))
 
 inductive Path where
   | pruned | index | range | generic
   deriving DecidableEq, Repr
 
-/-- decision order of `plan_filter` -/
+/-- decision order of `plan_filter` (the zone-map check applies: `n` is bound by the node scan) -/
 def Store.choosePath (s : Store) (key : Nat) (op : Op) (lit : V) : Path :=
   if !s.props.mightMatch key op lit then .pruned
-  else if op = .eq && s.hasIndex key then .index
+  else if op = .eq && (lookupKeys lit).isSome && s.hasIndex key then .index
   else if op.isRange then .range
   else .generic
 
